@@ -31,6 +31,7 @@ from .. import panic as P
 from .. import wire as W
 from ..mir import const_int, op_place
 from ..prov import derive, index_of
+from ..sym import Explorer, is_const, show
 from ..wrules import model, w1, w2
 
 TECHNIQUE = "static analysis: binrw wire-model conformance against reference layouts and reader/writer symmetry; field-provenance (derives-from) rules on the MIR of the extraction functions; guarded-region analysis of the SKLB version dispatch; table conformance of the Havok type/tag codes; constant-identity check of the layer-group heap placement; sibling agreement of member_count()/members() and provenance of the presence bit-field widths"
@@ -338,6 +339,51 @@ def run(ctx):
                 src = {c_.split("::")[-1] for c_ in d_.calls} & {"members", "member_count"}
                 ctx.ob("HKMEMBERS", f"bit-field-width|{nm.split('::')[-1]}", bool(src), f"{nm.split('::')[-1]}: the presence bit field is sized by {sorted(src) or sorted(c_.split('::')[-1] for c_ in d_.calls)}; must be the type's full member count", rb_.file, rb_.line)
     ctx.floor("HKMEMBERS", "presence bit fields read", n_bf, 2)
+    # the bit field of `count` members occupies ceil(count / 8) bytes: the byte count handed to read_bytes, as an
+    # expression of the parameter, is evaluated for every count up to 4096 (integer +, -, *, /, %, &, |, >>, <<, div_ceil)
+    bfb = prog.body("havok::binary_tag_file_reader::HavokBinaryTagFileReader::<'a>::read_bit_field")
+    if not bfb:
+        ctx.fail_closed("HKMEMBERS", "read_bit_field not found")
+    else:
+        def _ev(e, n):
+            if e == ("p", 2):
+                return n
+            if is_const(e):
+                return e[1]
+            if isinstance(e, tuple) and e[0] in ("cast", "chk"):
+                return _ev(e[2] if e[0] == "cast" else e[1], n)
+            if isinstance(e, tuple) and e[0] == "fld" and isinstance(e[1], tuple) and e[1][0] == "bin" and e[1][1].endswith("WithOverflow") and e[2] in (0, "0"):
+                return _ev(("bin", e[1][1].replace("WithOverflow", ""), e[1][2], e[1][3]), n)
+            if isinstance(e, tuple) and e[0] == "bin":
+                a, b_ = _ev(e[2], n), _ev(e[3], n)
+                if a is None or b_ is None:
+                    return None
+                ops_ = {"Add": lambda: a + b_, "Sub": lambda: a - b_, "Mul": lambda: a * b_, "Div": lambda: a // b_, "Rem": lambda: a % b_, "BitAnd": lambda: a & b_, "BitOr": lambda: a | b_,
+                        "Shr": lambda: a >> b_ if 0 <= b_ < 64 else None, "Shl": lambda: a << b_ if 0 <= b_ < 64 else None}
+                try:
+                    return ops_[e[1]]() if e[1] in ops_ else None
+                except (ZeroDivisionError, ValueError):
+                    return None
+            if isinstance(e, tuple) and e[0] == "call" and e[1].split("::")[-1] == "div_ceil" and len(e[2]) == 2:
+                a, b_ = _ev(e[2][0], n), _ev(e[2][1], n)
+                return -(-a // b_) if a is not None and b_ else None
+            return None
+
+        exprs = []
+        seen_bb = set()
+        for p_ in Explorer(bfb).explore():
+            for (bb_, callee, args, _r) in p_.events:
+                if callee.split("::")[-1] == "read_bytes" and len(args) == 2 and bb_ not in seen_bb:
+                    seen_bb.add(bb_)
+                    exprs.append(args[1])
+        wrong = None
+        if len(exprs) == 1:
+            for n_ in range(0, 4097):
+                v_ = _ev(exprs[0], n_)
+                if v_ != (n_ + 7) // 8:
+                    wrong = (n_, v_)
+                    break
+        ctx.ob("HKMEMBERS", "bit-field-bytes", len(exprs) == 1 and wrong is None, f"read_bit_field reads {show(exprs[0]) if exprs else '?'} bytes for `count` members; " + (f"for count = {wrong[0]} that is {wrong[1]}, the bit field has {(wrong[0] + 7) // 8}" if wrong else "equal to ceil(count / 8) for every count up to 4096"), bfb.file, bfb.line, sample=True)
 
     # ---- HKNAMES
     def member_map(fn, adt, want):
@@ -648,6 +694,31 @@ def run(ctx):
                 cap_ok = any(2 in derive(ix, o).params for o in rv["ops"]) and not any(3 in derive(ix, o).params for o in rv["ops"])
         ctx.ob("CHAIN", "start-item", (start_ok and cap_ok) or start_loop_ok, "the walk starts at the item whose body_id equals from_body_id", gb.file, gb.line)
         ctx.ob("CHAIN", "stop-at-target", stop_ok, "the walk stops when the item's body_id equals to_body_id", gb.file, gb.line)
+        # order inside one step of the walk: the current item's matrices are collected before the root test can end the
+        # walk (a root item contributes its own matrices)
+        from ..loops import classify as _classify
+
+        order_ok = None
+        root_tests = []
+        for bi_, blk_ in enumerate(gb.blocks):
+            t_ = blk_["t"]
+            if t_["k"] != "switch" or blk_.get("clone"):
+                continue
+            r_ = ix.resolve(t_["a"])
+            if r_[0] == "rv" and r_[1]["k"] == "bin" and r_[1]["op"] in ("Eq", "Ne"):
+                sides_ = [(P.source_name(ix, x_), ix.resolve(x_)) for x_ in (r_[1]["a"], r_[1]["b"])]
+                if any(n_ == "parent_index" for n_, _r in sides_) and any(rr_[0] == "const" and rr_[1] in (-1, 0xFFFF) for _n, rr_ in sides_):
+                    root_tests.append(bi_)
+        loops_ = _classify(gb)
+        push_bbs = [bi_ for bi_, t_ in gb.calls() if _last(t_.get("res")) == "push" and "bones" in {P.source_name(ix, t_["args"][0])} | derive(ix, t_["args"][0]).names]
+        walk = [lp_ for lp_ in loops_ if any(rt_ in lp_["blocks"] for rt_ in root_tests)]
+        walk = max(walk, key=lambda lp_: len(lp_["blocks"])) if walk else None
+        if walk and push_bbs:
+            inner = [lp_ for lp_ in loops_ if lp_["head"] != walk["head"] and lp_["blocks"] <= walk["blocks"] and any(pb_ in lp_["blocks"] for pb_ in push_bbs)]
+            collect_heads = [lp_["head"] for lp_ in inner] or [pb_ for pb_ in push_bbs if pb_ in walk["blocks"]]
+            rts = [rt_ for rt_ in root_tests if rt_ in walk["blocks"]]
+            order_ok = bool(collect_heads) and bool(rts) and all(any(gb.dominates(ch_, rt_) for ch_ in collect_heads) for rt_ in rts)
+        ctx.ob("CHAIN", "collect-before-root-test", order_ok is True, "within one step of the walk the current item's matrices are collected before the `parent_index == -1` test can end it (a root item contributes its own matrices)", gb.file, gb.line)
         ctx.ob("CHAIN", "stop-at-root", root_ok, "the walk stops at a link whose parent_index is -1", gb.file, gb.line)
         ctx.ob("CHAIN", "identity-query", same_ok, "from_body_id == to_body_id is answered with None before any lookup", gb.file, gb.line, trivial=True)
 
